@@ -238,6 +238,21 @@ def case_item(smiles):
     return {"nontrivial": nontrivial, "fails": fails}
 
 
+def sequence_item(mol):
+    """every rooted spelling of one molecule standardised one after the other in one process
+    (state kept between calls shows as a spelling-dependent result)"""
+    fails = []
+    n = 0
+    for sp in universe.rooted_spellings(mol) + bracket_spellings(mol)[:2]:
+        r = judge(sp)
+        if r is None:
+            continue
+        n += 1
+        for f in r[1]:
+            fails.append(dict(f, s=sp))
+    return {"n": n, "fails": fails[:3]}
+
+
 # --------------------------------------------------------------------------- driver
 
 
@@ -285,6 +300,14 @@ def run(tier, seed):
             res.add(Violation(e["family"], e["s"], e["observed"], e["expected"], g["key"],
                               "standardising {} gives {} ({} failing input(s) with this "
                               "key)".format(e["s"], e["observed"], g["count"])))
+    seq_mols = _dedupe([oracle.canon(m) for m in GEM_SERIES + HEMIKETALS + ENOLS] +
+                       ["OC=CCO", "OC=Cc1ccccc1", "CC(O)=CC(C)=O", "OC(O)CC=CO"])
+    rs2 = pmap("checks.c20:sequence_item", seq_mols, chunk=2, seed=seed)
+    for m, r in zip(seq_mols, rs2):
+        n_valid += r["n"]
+        for f in r["fails"][:1]:
+            res.add(Violation("spelling-sequence", m, f["observed"], f["expected"], ["sequence"] + f["key"],
+                              "standardising the spellings of {} one after the other: {} gives {}".format(m, f["s"], f["observed"])))
     res.coverage = {
         "evaluations": n_valid,
         "distinct_nontrivial": n_nontrivial,
@@ -316,6 +339,10 @@ def run(tier, seed):
 
 
 def replay(v):
+    if v.sub == "spelling-sequence":
+        r = sequence_item(v.case)
+        return [Violation(v.sub, v.case, f["observed"], f["expected"], ["sequence"] + f["key"], "sequence")
+                for f in r["fails"] if ["sequence"] + f["key"] == v.key][:1]
     r = judge(v.case)
     out = []
     if r is None:
